@@ -112,6 +112,9 @@ func genCase(t *rapid.T) Case {
 		}
 	}
 	c.Parallel = n > 1 && rapid.Bool().Draw(t, "parallel")
+	if rapid.IntRange(0, 3).Draw(t, "traffic-first?") == 0 {
+		c.Traffic = rapid.SampledFrom([]int{1000, 4096, 9000, 20000}).Draw(t, "traffic")
+	}
 	return c
 }
 
